@@ -690,7 +690,11 @@ def gen_binned_case(tape: Tape, *, funcs=("sum", "nansum", "mean", "count", "max
     shape = lead + [n]
     vals = gen_values(tape, int(np.prod(shape)), dtype=dtype, nan_p=nan_p).reshape(shape)
     chunks = [gen_chunks(tape, s, "gen.chunks.lead", max_blocks=2) for s in lead] + [gen_chunks(tape, n, max_blocks=max_blocks)]
-    kwargs = {"func": func, "expected_groups": np.array(edges), "isbin": True}
+    if tape.chance("gen.interval", 0.45):
+        # an IntervalIndex handed over directly (left- or right-closed) instead of edges + isbin
+        kwargs = {"func": func, "expected_groups": {"__interval__": {"breaks": edges, "closed": tape.choice("gen.closed", ["left", "right"])}}}
+    else:
+        kwargs = {"func": func, "expected_groups": np.array(edges), "isbin": True}
     if func == "argmax":
         kwargs["fill_value"] = -1
     elif dt.kind in "iu" and func in ("sum", "nansum", "count", "max", "nanmin", "nanfirst"):
